@@ -17,7 +17,7 @@ EXTENDS HeaderCodec, TLC, Json, IOUtils
 Rec == ndJsonDeserialize(IOEnv.TRACE)
 
 VARIABLE i
-tvars == <<pc, h, wire, dec, twin, i>>
+tvars == <<pc, h, wire, dec, twin, fe, i>>
 
 Ev == Rec[i]
 
@@ -41,7 +41,12 @@ StepReset ==
     /\ Ev.shape.kind \in ExtKinds /\ Ev.shape.size \in 0..1 /\ Ev.shape.seq \in 0..1
     /\ h' = Inst(ShapeOf(Ev.shape), FALSE, <<>>, Identity(Ev.shape.n))
     /\ twin' = h'
-    /\ pc' = "built" /\ wire' = <<>> /\ dec' = <<>>
+    /\ pc' = "built" /\ wire' = <<>> /\ dec' = <<>> /\ fe' = 0
+
+\* the harness made encode_cbor fail on an unrelated value right before the next event's calls
+StepFailedEncode ==
+    /\ Ev.ev = "FailedEncode"
+    /\ FailedEncode
 
 StepSign ==
     /\ Ev.ev = "Sign"
@@ -82,12 +87,12 @@ TraceInit ==
     /\ i = 1
     /\ pc = "built" /\ wire = <<>> /\ dec = <<>>
     /\ h = Inst([size |-> 0, hash |-> FALSE, seq |-> 0, back |-> FALSE, ext |-> ExtVal("zst", FALSE, 0)], FALSE, <<>>, <<>>)
-    /\ twin = h
+    /\ twin = h /\ fe = 0
 
 TraceNext ==
     /\ i <= Len(Rec)
     /\ i' = i + 1
-    /\ (StepReset \/ StepSign \/ StepEncode \/ StepDecode \/ StepTwin)
+    /\ (StepReset \/ StepFailedEncode \/ StepSign \/ StepEncode \/ StepDecode \/ StepTwin)
 TraceSpec == TraceInit /\ [][TraceNext]_tvars
 
 TraceAccepted ==
